@@ -81,6 +81,9 @@ def base_case(draw, types=TYPES, typ=None):
         "root": draw(gen.rand_bytes(32)),
         "tap_ht": draw(st.sampled_from([0, 0, 1, 2, 3, 0x81, 0x82, 0x83])),
         "extra_leaf": draw(st.booleans()),
+        # BIP341 annex the signatures commit to (taproot key path / p2pk leaf only: those are signed
+        # through get_sig_taproot, which reads the annex from the witness)
+        "annex": draw(st.one_of(st.none(), st.none(), st.binary(max_size=12).map(lambda b: b"\x50" + b))),
     }
 
 
@@ -220,11 +223,19 @@ class Spend:
             sigs = [self.ecdsa_sig(p) for p in self.signer_privs()]
             tin.finalize_p2sh_p2wsh_multisig(sigs, self.wscript)
             return None
+        annex = self.case.get("annex")
         if typ in ("p2tr_key", "p2tr_key_root"):
             tweaked = p0.tweaked_key(self.merkle_root)
+            if annex is not None:
+                # the annex is in the witness while the digest is computed, hence committed to
+                tin.witness = Witness([bytes(64), bytes(annex)])
+                sig = tx.get_sig_taproot(idx, tweaked, hash_type=self.case["tap_ht"])
+                tin.witness = Witness([sig, bytes(annex)])
+                return None
             return tx.sign_p2tr_keypath(idx, tweaked, hash_type=self.case["tap_ht"])
         if typ == "p2tr_script_p2pk":
-            tin.witness = Witness([self.tap_script.raw_serialize(), self.cb.serialize()])
+            tin.witness = Witness([self.tap_script.raw_serialize(), self.cb.serialize()]
+                                  + ([bytes(annex)] if annex is not None else []))
             sig = tx.get_sig_taproot(idx, p0, ext_flag=1, hash_type=self.case["tap_ht"])
             tin.witness.items.insert(0, sig)
             return None
@@ -267,6 +278,11 @@ def check_signed(case, ctx):
         raise Discard("verification did not finish within 120 s (overloaded machine): inconclusive")
     require(st_ == "ok" and ok is True, f"signed/{sp.typ}:valid_spend_rejected",
             f"{st_}:{ok!r} m={sp.m} n={sp.n} n_in={case['n_in']} idx={sp.idx}")
+    if case.get("annex") is not None and sp.typ in ("p2tr_key", "p2tr_key_root", "p2tr_script_p2pk"):
+        ctx.label("annex_committed")
+        # the verdict is about the transaction, not about how often it was asked for
+        st_, ok = attempt(sp.tx.verify_input, sp.idx)
+        require(st_ == "ok" and ok is True, f"signed/{sp.typ}:valid_spend_rejected_on_second_verification")
     # the signed transaction survives its own wire codec and still verifies
     t2 = sp.tx.clone()
     st_, ok = attempt(t2.verify_input, sp.idx)
@@ -298,6 +314,10 @@ for _t in TYPES:
         ms += ["sibling_leaf_same_keys", "sibling_leaf_same_keys"]
     if _t in ("p2tr_key", "p2tr_key_root"):
         ms += ["untweaked_key_sig", "wrong_root_sig"]
+    if _t in TAPROOT:
+        ms += ["annex_added_after_signing"]
+    if _t in ("p2tr_key", "p2tr_key_root", "p2tr_script_p2pk"):
+        ms += ["annex_changed", "annex_removed"]
     MUTS[_t] = ms
 ALL_MUTS = sorted({m for v in MUTS.values() for m in v})
 _MUT_CHOICE = gen.choice(ALL_MUTS)
@@ -342,6 +362,10 @@ def check_mutated(case, ctx):
     if not tap_ok(case):
         raise Discard("taproot SINGLE without matching output")
     mut = case["mut"]
+    if mut in ("annex_changed", "annex_removed") and case.get("annex") is None:
+        case = dict(case, annex=b"\x50" + bytes([case["which"]]))
+    if mut == "annex_added_after_signing":
+        case = dict(case, annex=None)
     sp = Spend(case)
     typ, tx, idx = sp.typ, sp.tx, sp.idx
     if mut in ("dup_sig", "reorder_sigs") and sp.m < 2:
@@ -359,6 +383,7 @@ def check_mutated(case, ctx):
     tin = tx.tx_ins[idx]
     d, w = case["delta"], case["which"]
     taproot = typ in TAPROOT
+    with_annex = case.get("annex") is not None and typ in ("p2tr_key", "p2tr_key_root", "p2tr_script_p2pk")
     slots, pos = sig_slots(sp)
     p = pos[w % len(pos)]
 
@@ -408,7 +433,9 @@ def check_mutated(case, ctx):
         t2 = tx.clone()
         t2.version = (t2.version + 1) % 2**32
         if taproot and typ in TAPSCRIPT:
-            t2.tx_ins[idx].witness = Witness(list(tin.witness.items[-2:]))
+            # tap script and control block (and the committed annex, if any) without the signatures
+            keep = 3 if with_annex else 2
+            t2.tx_ins[idx].witness = Witness(list(tin.witness.items[-keep:]))
         signer = sp.signer_privs()[0] if typ in MULTI else sp.privs[0]
         if typ in ("p2tr_key", "p2tr_key_root"):
             signer = signer.tweaked_key(sp.merkle_root)
@@ -483,7 +510,8 @@ def check_mutated(case, ctx):
         junk = [[0x51], [b"\x01"], [0x51, 0x51], [b"\x00" * 20], [0x00]][w % 5]
         tin.script_sig = Script(junk + list(tin.script_sig.commands))
     elif mut in ("cb_flip_parity", "cb_other_internal", "cb_alter_path", "leaf_version"):
-        cb = bytearray(tin.witness.items[-1])
+        ci = -2 if with_annex else -1
+        cb = bytearray(tin.witness.items[ci])
         if mut == "cb_flip_parity":
             cb[0] ^= 1
         elif mut == "leaf_version":
@@ -495,7 +523,7 @@ def check_mutated(case, ctx):
                 cb[33 + (d % (len(cb) - 33))] ^= 1 + (d >> 8) % 255
             else:
                 cb += bytes(32)
-        tin.witness.items[-1] = bytes(cb)
+        tin.witness.items[ci] = bytes(cb)
     elif mut == "sibling_leaf_same_keys":
         # keep the signatures, present the sibling leaf (in the tree, honest control block) IN PLACE
         cb2 = sp.tree.control_block(sp.internal, sp.sibling)
@@ -506,6 +534,14 @@ def check_mutated(case, ctx):
         tin.witness = Witness([ts.raw_serialize(), sp.cb.serialize()])
         sig = tx.get_sig_taproot(idx, sp.foreign, ext_flag=1)
         tin.witness.items.insert(0, sig)
+    elif mut == "annex_added_after_signing":
+        # BIP341 signatures commit to the presence and content of the annex
+        tin.witness.items.append(b"\x50" + d.to_bytes(4, "big")[: w % 5])
+    elif mut == "annex_changed":
+        a = tin.witness.items[-1]
+        tin.witness.items[-1] = a + b"\x00" if w % 2 else b"\x50" + bytes([(a[1:2] or b"\x00")[0] ^ 1]) + a[2:]
+    elif mut == "annex_removed":
+        tin.witness.items.pop()
     elif mut == "untweaked_key_sig":
         tin.witness = Witness([tx.get_sig_taproot(idx, sp.privs[0])])
     elif mut == "wrong_root_sig":
@@ -625,7 +661,8 @@ def check_nosig(case, ctx):
 
 SUBS = [
     Sub("signed_spends_verify", check_signed, strategy=lambda tier: base_case(),
-        budget={"quick": 300, "thorough": 20000}, required=["type:" + t for t in TYPES],
+        budget={"quick": 300, "thorough": 20000},
+        required=["type:" + t for t in TYPES] + ["annex_committed"],
         nontrivial_rule="m-of-n with n >= 2, or a transaction with more than one input"),
     Sub("unauthorised_never_verifies", check_mutated, strategy=lambda tier: mut_case(),
         budget={"quick": 650, "thorough": 60000},
